@@ -15,6 +15,8 @@ every one of them gave VIOLATION with a replay on seed 0, quick tier:
   M9 CaseNormalizer `w.lower()` -> `w.casefold()`  ('ß' -> 'ss')                        caught (source)
   M10 _getWordIdCreate: `self._words[wid] = word` dropped for ids divisible by 5 (id -> word hole, the skip
      loop then hands the id out again later)                                            caught (getword)
+Glob classes shared with C03 (seeded C03_D / C03_E were caught here by chance of the random pool; now generated on
+purpose and measured): M11 key.lstrip(prefix), M12 range scan bounded by prefix + U+1FFFF (see props/c03.py) caught.
 """
 import re
 import sys
@@ -42,7 +44,11 @@ RULE = ("each case = one real Lexicon(*pipeline) with a pipeline of 0-4 shipped 
         "newline/tab/NBSP/U+2028, markup, accented and multi-code-point-lowering letters incl. U+0130, Kelvin "
         "sign, digits of other scripts, combining mark, astral and lone-surrogate code points, chr(254..256)); "
         "globToWordIds with patterns derived from pool words (prefix*, infix ?, several globs, leading glob, no "
-        "glob, empty) and an adversarial pool (regex metacharacters, newlines); isGlob; after writes "
+        "glob, empty) and an adversarial pool (regex metacharacters, newlines); 40% of the pools get 1-3 words in "
+        "which a prefix occurs twice and 40% get 1-3 words with a character beyond U+00FF / beyond the BMP (up to "
+        "U+323AF) after a prefix, with ?-only globs fitting only the word's tail and globs whose prefix ends before "
+        "the high character (measured quick seed 0, of 4800 cases: only a tail of a known word fits 639, match "
+        "continues beyond the BMP 282, beyond U+00FF 743); isGlob; after writes "
         "word_count/items/get_word(0..n+1)/get_wid; single pipeline elements on their own (process/processGlob). "
         "non-trivial = at least 3 words known, a glob with a non-empty answer and one differing answer")
 TRUSTED = ["character tables (\\w membership, str.lower()) are DATA computed from CPython for the alphabet in use and "
